@@ -74,29 +74,11 @@ fn step(sess: &mut Sess, toks: &[&str]) -> String {
         attrs::FAULT.with(|f| f.set(0));
         match dim {
             2 => {
-                let mut s = s2::S2::new(n, mask);
-                for (x, u) in groups[3].iter().enumerate() {
-                    if *u != 0 {
-                        s.map.remove_free_dart(x as u32);
-                    }
-                }
-                for x in 0..=n {
-                    s.map.set_betas(x as u32, [groups[0][x], groups[1][x], groups[2][x]]);
-                }
-                *sess = Sess::D2(s);
+                *sess = Sess::D2(s2::S2::load(n, mask, &groups));
                 "ok".into()
             }
             3 => {
-                let mut s = s3::S3::new(n, mask);
-                for (x, u) in groups[4].iter().enumerate() {
-                    if *u != 0 {
-                        s.map.remove_free_dart(x as u32);
-                    }
-                }
-                for x in 0..=n {
-                    s.map.set_betas(x as u32, [groups[0][x], groups[1][x], groups[2][x], groups[3][x]]);
-                }
-                *sess = Sess::D3(s);
+                *sess = Sess::D3(s3::S3::load(n, mask, &groups));
                 "ok".into()
             }
             _ => "bad-op".into(),
